@@ -2,6 +2,7 @@
    the outcome is exactly the outcome of the stream without them. *)
 From DV Require Import Base.Prelude Model.XfrM Proofs.XfrSets Proofs.XfrSpec Proofs.XfrZone Proofs.XfrDiff
   Proofs.XfrSafety Proofs.XfrBasic Proofs.XfrRun Proofs.XfrIxfr Proofs.XfrAxfr Proofs.XfrPerm Proofs.XfrOrder.
+From Coq Require Import Sorting.Permutation.
 
 Definition glue (r : rr) : bool := (r_name r <? 0) && negb (r_type r =? tSOA).
 Definition rs_glue (s : rrset) : bool := (s_name s <? 0) && negb (s_type s =? tSOA).
@@ -182,4 +183,238 @@ Proof.
     as [z' [n [Hn Hz']]].
   exists z', n. split; [exact Hn|]. apply full_target; [exact Hv|].
   eapply zeq_trans; [exact Hz'|]. apply zput_zeq, adds_same_set; [exact PB|apply zsorted_nil].
+Qed.
+
+(* ---- AXFR-style answer to an IXFR request, with glue ---- *)
+Lemma step_fallback_glue : forall l p tz ser s0 r, okrec r ->
+  step l (ist false p tz ser s0 true false) (single r) =
+  (ast false tIXFR p (adds [] (erase [r])) ser s0, None).
+Proof.
+  intros l p tz ser s0 r [Hg|Hp].
+  - unfold erase. cbn [filter]. rewrite Hg. cbn [negb adds].
+    unfold glue in Hg. apply andb_true_iff in Hg. destruct Hg as [Hn _]. apply Z.ltb_lt in Hn.
+    unfold step, ist. cbn [done txn expecting].
+    assert (E : (s_name (single r) =? origin) = false) by (apply Z.eqb_neq; cbn; unfold origin; lia).
+    rewrite E, andb_false_r.
+    assert (Z : in_zone (s_name (single r)) = false) by (apply Z.leb_gt; exact Hn).
+    rewrite Z. reflexivity.
+  - assert (Hg : glue r = false).
+    { destruct Hp as (_ & _ & Hn & _). unfold glue. apply andb_false_iff. left. apply Z.ltb_ge. exact Hn. }
+    unfold erase. cbn [filter]. rewrite Hg. cbn [negb]. apply step_fallback, Hp.
+Qed.
+
+Lemma cont_fallback_glue : forall ws a p tz ser v r c,
+  ttl_ok (v_ttl v) -> Forall (header_ok tIXFR) ws -> okrec r -> Forall okrec c ->
+  a ++ concat (map w_records ws) = r :: c ++ [soa_rr v] ->
+  exists z' n, cont true (loop (ist false p tz ser (single (soa_rr v)) true false) (map single a)) ws = (Done z', n)
+    /\ zeq z' (zput soakey (v_ttl v, [v_soa v]) (adds [] (erase (r :: c)))).
+Proof.
+  assert (PG : parse_ok_glue (group true)).
+  { destruct parse_single_ok_glue as (G0 & G1 & G4).
+    split; [apply parse_group_true_ok|]. split; intros; rewrite ?group_true; auto. }
+  induction ws as [|w ws IH]; intros a p tz ser v r c Httl Hh Hr Hc Hcat.
+  - cbn [map concat] in Hcat. rewrite app_nil_r in Hcat. subst a.
+    cbn [map]. assert (L : forall rest, loop (ist false p tz ser (single (soa_rr v)) true false) (single r :: rest)
+                             = loop (ast false tIXFR p (adds [] (erase [r])) ser (single (soa_rr v))) rest).
+    { intros rest. cbn [loop]. rewrite step_fallback_glue by assumption. reflexivity. }
+    rewrite L.
+    destruct (cont_full_glue [] true (map single) (c ++ [soa_rr v]) tIXFR p (adds [] (erase [r])) ser v c
+                parse_single_ok_glue PG Httl Hh Hc) as [z' [n [Hn Hz']]].
+    { apply adds_sorted, zsorted_nil. }
+    { cbn. rewrite app_nil_r. reflexivity. }
+    exists z', n. split; [exact Hn|].
+    change (r :: c) with ([r] ++ c). rewrite erase_app, adds_app. exact Hz'.
+  - destruct a as [|y a].
+    + cbn [map loop cont ist done]. inversion Hh as [|? ? Hw Hws]; subst.
+      rewrite drive_cons. unfold from_wire. rewrite group_true.
+      rewrite process_running; [|repeat split; try reflexivity; discriminate|apply Hw|apply Hw]. cbn [m_answer].
+      cbn [app map concat] in Hcat.
+      destruct (IH (w_records w) p tz ser v r c Httl Hws Hr Hc Hcat) as [z' [n [Hn Hz']]].
+      fold (ist false p tz ser (single (soa_rr v)) true false). rewrite Hn.
+      exists z', (S n). split; [reflexivity|exact Hz'].
+    + cbn [app] in Hcat. inversion Hcat; subst.
+      cbn [map]. assert (L : forall rest, loop (ist false p tz ser (single (soa_rr v)) true false) (single r :: rest)
+                             = loop (ast false tIXFR p (adds [] (erase [r])) ser (single (soa_rr v))) rest).
+      { intros rest. cbn [loop]. rewrite step_fallback_glue by assumption. reflexivity. }
+      rewrite L.
+      destruct (cont_full_glue (w :: ws) true (map single) a tIXFR p (adds [] (erase [r])) ser v c
+                  parse_single_ok_glue PG Httl Hh Hc) as [z' [n [Hn Hz']]].
+      { apply adds_sorted, zsorted_nil. }
+      { assumption. }
+      exists z', n. split; [exact Hn|].
+      change (r :: c) with ([r] ++ c). rewrite erase_app, adds_app. exact Hz'.
+Qed.
+
+Theorem axfr_style_ixfr_converges_with_glue : forall v z0 ser recs ws,
+  version_wf v -> v_rest v <> [] -> axfr_response_glue v recs ->
+  v_serial v <> ser -> serial_lt (v_serial v) ser = false ->
+  chunking tIXFR recs ws ->
+  exists z' n, inbound_xfr z0 tIXFR (Some ser) false ws = (Done z', n) /\ zeq z' (zone_of v).
+Proof.
+  intros v z0 ser recs ws Hv Hne [B [HB [PB ->]]] Hs Hlt Hch.
+  apply chunking_first in Hch. destruct Hch as (w & ws' & a & -> & Hr & Hw & Hws & Hcat).
+  pose proof Hv as [Httl Hwf].
+  destruct B as [|r c].
+  { exfalso.
+    destruct (v_rest v) as [|[k [t ds]] rest]; [congruence|].
+    destruct Hwf as [_ Hf]. inversion Hf as [|? ? He _]; subst.
+    destruct k as [[n ty] cv]. cbn in He. destruct He as (_ & _ & _ & Hds & _).
+    destruct ds as [|d ds]; [congruence|].
+    apply (proj2 (PB (mkRR n cIN ty cv t d))). unfold body. cbn [flat_map]. apply in_or_app. left.
+    cbn. left. reflexivity. }
+  inversion HB as [|? ? Hpr Hpc]; subst.
+  unfold inbound_xfr. rewrite init_ixfr. cbn [Z.eqb tIXFR Pos.eqb]. rewrite drive_cons.
+  rewrite (first_message_ixfr z0 ser false w (soa_rr v) a Hw Hr) by (split; reflexivity).
+  cbv zeta. change (r_data (soa_rr v) mod two32) with (v_serial v).
+  apply Z.eqb_neq in Hs. rewrite Hs, Hlt. cbn [andb]. rewrite after_tcp by reflexivity.
+  destruct (cont_fallback_glue ws' a z0 z0 ser v r c Httl Hws Hpr Hpc Hcat) as [z' [n [Hn Hz']]].
+  exists z', n. split; [exact Hn|].
+  apply full_target; [exact Hv|].
+  eapply zeq_trans; [exact Hz'|]. apply zput_zeq, adds_same_set; [exact PB|apply zsorted_nil].
+Qed.
+
+(* ---- incremental transfers whose sections also carry out-of-zone records ---- *)
+Lemma step_glue_skip_ist : forall l u p tz ser s0 dm r, glue r = true ->
+  step l (ist u p tz ser s0 false dm) (single r) = (ist u p tz ser s0 false dm, None).
+Proof.
+  intros l u p tz ser s0 dm r Hg. unfold glue in Hg. apply andb_true_iff in Hg. destruct Hg as [Hn _].
+  apply Z.ltb_lt in Hn. unfold ist, step. cbn [done txn expecting].
+  assert (E : (s_name (single r) =? origin) = false) by (apply Z.eqb_neq; cbn; unfold origin; lia).
+  rewrite E, andb_false_r.
+  assert (Z : in_zone (s_name (single r)) = false) by (apply Z.leb_gt; exact Hn).
+  rewrite Z. reflexivity.
+Qed.
+
+(* the version that is needed: all non-glue records are plain *)
+Lemma loopn_erase_dels : forall x u p tz tz' ser s0,
+  Forall okrec x -> dels tz (erase x) = Some tz' ->
+  loopn (ist u p tz ser s0 false true) (map single x) = (ist u p tz' ser s0 false true, None).
+Proof.
+  induction x as [|r x IH]; intros u p tz tz' ser s0 Hok Hd; cbn [map erase filter] in *.
+  - inversion Hd; reflexivity.
+  - inversion Hok as [|? ? Hr Hok']; subst. fold (erase x) in Hd. cbn [loopn].
+    destruct Hr as [Hg|Hp].
+    + rewrite Hg in Hd. cbn [negb] in Hd. rewrite step_glue_skip_ist by exact Hg. apply IH; assumption.
+    + assert (Hg : glue r = false).
+      { destruct Hp as (_ & _ & Hn & _). unfold glue. apply andb_false_iff. left. apply Z.ltb_ge. exact Hn. }
+      rewrite Hg in Hd. cbn [negb dels] in Hd. unfold ist at 1. rewrite step_plain_del by exact Hp.
+      destruct (del1 (look tz (rkey r)) (r_data r)); [|discriminate]. apply IH; assumption.
+Qed.
+
+Lemma loopn_erase_adds : forall x u p tz ser s0,
+  Forall okrec x ->
+  loopn (ist u p tz ser s0 false false) (map single x) = (ist u p (adds tz (erase x)) ser s0 false false, None).
+Proof.
+  induction x as [|r x IH]; intros u p tz ser s0 Hok; cbn [map erase filter]; [reflexivity|].
+  inversion Hok as [|? ? Hr Hok']; subst. fold (erase x). cbn [loopn].
+  destruct Hr as [Hg|Hp].
+  - rewrite Hg. cbn [negb]. rewrite step_glue_skip_ist by exact Hg. apply IH; assumption.
+  - assert (Hg : glue r = false).
+    { destruct Hp as (_ & _ & Hn & _). unfold glue. apply andb_false_iff. left. apply Z.ltb_ge. exact Hn. }
+    rewrite Hg. cbn [negb adds]. unfold ist at 1. rewrite step_plain_add by exact Hp. apply IH; assumption.
+Qed.
+
+Inductive ixfr_seqs_glue : version -> list version -> list rr -> Prop :=
+| seqsg_nil : forall v, ixfr_seqs_glue v [] []
+| seqsg_cons : forall v w rest D A tail,
+    Forall okrec D -> Forall okrec A ->
+    Permutation (erase D) (zminus (v_rest v) (v_rest w)) ->
+    same_set (erase A) (zminus (v_rest w) (v_rest v)) ->
+    ixfr_seqs_glue w rest tail ->
+    ixfr_seqs_glue v (w :: rest) (soa_rr v :: D ++ soa_rr w :: A ++ tail).
+
+Definition ixfr_response_glue (v0 : version) (chain : list version) (recs : list rr) : Prop :=
+  exists mid, ixfr_seqs_glue v0 chain mid /\
+              recs = soa_rr (last chain v0) :: mid ++ [soa_rr (last chain v0)].
+
+Lemma section_run_glue : forall u p tz vn a b e D A,
+  version_wf a -> version_wf b -> v_soa a <> v_soa vn -> zsorted tz ->
+  (forall k, k <> soakey -> look tz k = look (v_rest a) k) ->
+  Forall okrec D -> Forall okrec A ->
+  Permutation (erase D) (zminus (v_rest a) (v_rest b)) -> same_set (erase A) (zminus (v_rest b) (v_rest a)) ->
+  exists tz',
+    loopn (ist u p tz (v_serial a) (single (soa_rr vn)) e false) (map single (soa_rr a :: D ++ soa_rr b :: A)) =
+    (ist u p tz' (v_serial b) (single (soa_rr vn)) false false, None)
+    /\ zeq tz' (zone_of b).
+Proof.
+  intros u p tz vn a b e D A [Hta Ha] [Htb Hb] Hne Hs Hz OD OA PD PA.
+  destruct (diff_apply (v_rest a) (v_rest b) tz Ha Hb Hz) as [z1 [Hd [_ Hadd]]].
+  destruct (dels_perm _ (erase D) tz z1 (Permutation_sym PD) Hs Hd) as [z1' [Hd' Hz1]].
+  exists (adds (zput soakey (v_ttl b, [v_soa b]) z1') (erase A)). split.
+  - cbn [map loopn]. rewrite step_del_start by assumption.
+    rewrite map_app, loopn_app.
+    rewrite (loopn_erase_dels D u p tz z1' _ _ OD Hd').
+    cbn [map loopn]. rewrite step_add_start by assumption.
+    rewrite (loopn_erase_adds A u p _ _ _ OA). reflexivity.
+  - assert (S1 : zsorted z1').
+    { intros k. pose proof (look_dels_fd _ _ _ Hd' k) as F.
+      clear - F Hs. revert F. generalize (look z1' k). generalize (Hs k). generalize (look tz k).
+      induction (erase D) as [|r D' IH]; intros e0 He0 e1 F; cbn [fd] in F.
+      - inversion F; subst; exact He0.
+      - destruct (key_eqb (rkey r) k); [|eapply IH; eassumption].
+        destruct (del1 e0 (r_data r)) as [e'|] eqn:E; cbn [bindo] in F; [|discriminate].
+        eapply IH; [|exact F]. eapply wf_e_del1; eassumption. }
+    eapply zeq_trans; [apply adds_same_set; [exact PA|apply zsorted_zput_one, S1]|].
+    eapply zeq_trans; [apply adds_zeq, zput_zeq, Hz1|].
+    intros k. rewrite Hadd, look_zone_of. reflexivity.
+Qed.
+
+Lemma chain_run_glue : forall u chain p tz vn v0 e mid,
+  ixfr_seqs_glue v0 chain mid ->
+  chain <> [] -> version_wf v0 -> Forall version_wf chain -> zsorted tz ->
+  (forall v, In v (v0 :: removelast chain) -> v_soa v <> v_soa vn) ->
+  (forall k, k <> soakey -> look tz k = look (v_rest v0) k) ->
+  exists tz',
+    loopn (ist u p tz (v_serial v0) (single (soa_rr vn)) e false) (map single mid) =
+    (ist u p tz' (v_serial (last chain v0)) (single (soa_rr vn)) false false, None)
+    /\ zeq tz' (zone_of (last chain v0)).
+Proof.
+  intros u chain p tz vn v0 e mid HS. revert p tz e.
+  induction HS as [v|v w rest D A tail OD OA PD PA HS IH]; intros p tz e Hne Hv0 Hch Hs Hd Hz; [congruence|].
+  inversion Hch as [|? ? Hw Hch']; subst.
+  destruct (section_run_glue u p tz vn v w e D A Hv0 Hw (Hd v (or_introl eq_refl)) Hs Hz OD OA PD PA) as [tz1 [Hr1 Hz1]].
+  assert (E : soa_rr v :: D ++ soa_rr w :: A ++ tail = (soa_rr v :: D ++ soa_rr w :: A) ++ tail).
+  { cbn [app]. f_equal. rewrite <- app_assoc. reflexivity. }
+  rewrite E, map_app, loopn_app, Hr1.
+  destruct rest as [|w2 rest].
+  - inversion HS; subst. cbn [map loopn last]. exists tz1. auto.
+  - assert (H1 : w2 :: rest <> []) by discriminate.
+    assert (H2 : forall x, In x (w :: removelast (w2 :: rest)) -> v_soa x <> v_soa vn).
+    { intros x Hin. apply Hd. right. exact Hin. }
+    assert (H3 : forall k, k <> soakey -> look tz1 k = look (v_rest w) k).
+    { intros k Hk. rewrite Hz1, look_zone_of. apply key_eqb_neq in Hk. rewrite Hk. reflexivity. }
+    assert (S1 : zsorted tz1) by (eapply zsorted_zeq; [exact Hz1|apply zsorted_zone_of, Hw]).
+    destruct (IH p tz1 false H1 Hw Hch' S1 H2 H3) as [tz2 [Hr2 Hz2]].
+    change (last (w :: w2 :: rest) v) with (last (w2 :: rest) v).
+    rewrite (last_default (w2 :: rest) v w H1).
+    exists tz2. split; [exact Hr2|exact Hz2].
+Qed.
+
+Theorem ixfr_converges_with_glue : forall v0 chain z0 recs ws,
+  chain_ok v0 chain -> zeq z0 (zone_of v0) -> ixfr_response_glue v0 chain recs -> chunking tIXFR recs ws ->
+  exists z' n, inbound_xfr z0 tIXFR (Some (v_serial v0)) false ws = (Done z', n)
+               /\ zeq z' (zone_of (last chain v0)).
+Proof.
+  intros v0 chain z0 recs ws Hok Hz [mid [HS ->]] Hch.
+  apply chunking_first in Hch. destruct Hch as (w & ws' & a & -> & Hr & Hw & Hws & Hcat).
+  pose proof Hok as (Hne0 & Hv0 & Hchain & Hser & Hlt).
+  destruct (chain_run_glue false chain z0 z0 (last chain v0) v0 true mid HS Hne0 Hv0 Hchain) as [tz' [Hl Hz']].
+  { eapply zsorted_zeq; [exact Hz|apply zsorted_zone_of, Hv0]. }
+  { apply chain_ok_soa, Hok. }
+  { intros k Hk. rewrite Hz, look_zone_of. apply key_eqb_neq in Hk. rewrite Hk. reflexivity. }
+  pose proof (version_wf_last chain v0 Hv0 Hchain) as [Httl _].
+  pose proof (step_final false z0 tz' (last chain v0) Httl) as Hf.
+  unfold inbound_xfr. rewrite init_ixfr. cbn [Z.eqb tIXFR Pos.eqb]. rewrite drive_cons.
+  rewrite (first_message_ixfr z0 (v_serial v0) false w (soa_rr (last chain v0)) a Hw Hr) by (split; reflexivity).
+  cbv zeta. change (r_data (soa_rr (last chain v0)) mod two32) with (v_serial (last chain v0)).
+  assert (Hne : (v_serial (last chain v0) =? v_serial v0) = false).
+  { apply Z.eqb_neq. intros E. apply (Hser v0 (or_introl eq_refl)). symmetry. exact E. }
+  rewrite Hne, Hlt. cbn [andb]. rewrite after_tcp by reflexivity.
+  assert (Hrun : running (ist false z0 z0 (v_serial v0) (single (soa_rr (last chain v0))) true false)).
+  { repeat split; try reflexivity; discriminate. }
+  destruct (cont_records ws' a (ist false z0 z0 (v_serial v0) (single (soa_rr (last chain v0))) true false)
+              mid (soa_rr (last chain v0)) _ _ Hrun Hws Hcat Hl eq_refl Hf eq_refl) as [n Hn].
+  eexists. exists n. split; [exact Hn|].
+  cbn [pub]. intros k. rewrite look_zput, look_zone_of.
+  destruct (key_eqb k soakey) eqn:E; [reflexivity|]. rewrite Hz', look_zone_of, E. reflexivity.
 Qed.
